@@ -105,7 +105,11 @@ class Num:
             a, b = self.num(v[2]), self.num(v[3])
             if a is None or b is None:
                 return None
-            return {'Add': a + b, 'Mul': a * b, 'Sub': a - b}.get(v[1])
+            # constant expressions evaluate exactly (the compiler rejects overflow in them)
+            return {'Add': lambda: a + b, 'Mul': lambda: a * b, 'Sub': lambda: a - b,
+                    'Shl': lambda: a << b if 0 <= b < 64 else None, 'Shr': lambda: a >> b if 0 <= b < 64 else None,
+                    'Div': lambda: a // b if b > 0 and a >= 0 else None, 'Rem': lambda: a % b if b > 0 and a >= 0 else None,
+                    'BitOr': lambda: a | b, 'BitAnd': lambda: a & b, 'BitXor': lambda: a ^ b}.get(v[1], lambda: None)()
         if k == 'call':
             nm = v[1]
             if nm == 'size_of':
